@@ -90,6 +90,8 @@ structure Store where
   born : Nat → Option Origin
   /-- ghost: every delete request invoked so far, `(id, client)` -/
   delReq : List (Nat × Nat)
+  /-- ghost: the creating `CreateMapping` has stored the record of mapping `n` (step 8) -/
+  written : Nat → Bool
 
 inductive PC
   | idle
@@ -189,7 +191,7 @@ def stepCreate (cf : Config) (s : Store) (client : Nat) (sub base thost : String
     | none => ({ s with index := upd s.index (sub ++ "." ++ base) (some n),
                         born := upd s.born n (some ⟨sub ++ "." ++ base, client, thost, tport⟩) }, .cSetData n, none)
     | some _ => (s, .idle, some (.err coreerrors.CodeAlreadyExists))
-  | .cSetData n => ({ s with data := upd s.data n (some (mkRec n client sub base thost tport)) }, .cAppC n, none)
+  | .cSetData n => ({ s with data := upd s.data n (some (mkRec n client sub base thost tport)), written := upd s.written n true }, .cAppC n, none)
   | .cAppC n => ({ s with clientList := upd s.clientList client (appendId n (s.clientList client)) }, .cAppG n, none)
   | .cAppG n => ({ s with globalList := appendId n s.globalList }, .idle, some (.okId n))
   | _ => (s, .idle, some (.err "BADPC"))
@@ -308,7 +310,7 @@ def initStore (i : Input) : Store :=
   { next := 0, index := fun _ => none, data := fun _ => none, claims := fun _ => false,
     clientList := fun _ => none, globalList := none,
     registry := i.reg.foldl (registerPM i.cf) (fun _ => none),
-    born := fun _ => none, delReq := [] }
+    born := fun _ => none, delReq := [], written := fun _ => false }
 
 def initCfg (i : Input) : Cfg :=
   ⟨initStore i, fun t => ⟨i.threads.getD t [], .idle⟩⟩
